@@ -35,7 +35,7 @@ type romodScn struct {
 	Missing   bool     `json:"missing"`   // the module directory does not exist yet
 	Mixed     bool     `json:"mixed"`     // several modules with mixed writability are configured
 	ArgForm   string   `json:"argform"`   // normal | no-server (the "--server" line is missing) | long (options spelled out as long options) | dup (options given twice)
-	Layout    string   `json:"layout"`    // alone | sibling | prefix | nested | parent: where writable modules sit relative to the module under test
+	Layout    string   `json:"layout"`    // alone | sibling | prefix | nested | parent | same | same-slash: where writable modules sit relative to the module under test
 }
 
 type romodObs struct {
@@ -131,6 +131,10 @@ func romodHandler(w *workerCtx, line []byte) (any, error) {
 		mods = []rsyncd.Module{{Name: "mo", Path: pre, Writable: true}, mod, {Name: "m2", Path: otherRO}}
 	case "nested": // the module's directory lies below a writable module's directory
 		mods = []rsyncd.Module{{Name: "top", Path: base, Writable: true}, mod}
+	case "same": // a writable module exports the very same directory under another name
+		mods = []rsyncd.Module{{Name: "rwtwin", Path: modDir, Writable: true}, mod}
+	case "same-slash": // ... spelled with a trailing slash, and listed after the module
+		mods = []rsyncd.Module{mod, {Name: "rwtwin", Path: modDir + "/", Writable: true}}
 	case "parent": // a writable module's directory lies below the module's directory
 		mods = []rsyncd.Module{mod, {Name: "sub", Path: filepath.Join(modDir, "existing"), Writable: true}}
 	}
